@@ -295,6 +295,9 @@ def transpose(op, input, *args):
 
 @register_qbytestensor_op([torch.ops.aten.t])
 def transpose2d(op, input):
+    if input.ndim < 2:
+        # As for a torch.Tensor, transposing a tensor that has less than two dimensions is a no-op
+        return QBytesTensor(input.qtype, input.axis, input.size(), input.stride(), op(input._data), input._scale)
     out_data = op(input._data)
     out_scale = input._scale
     out_axis = input.axis
